@@ -446,7 +446,7 @@ def gen_subgraph(mb, sg_index, key, n_ops, op_weights=None, want4d=None):
   return gb
 
 
-def gen_model(rng, n_subgraphs=None, max_ops=8, op_weights=None):
+def gen_model(rng, n_subgraphs=None, max_ops=8, op_weights=None, force_share=False):
   """Returns (model bytes, info dict)."""
   mb = ModelBuilder(rng, name_style=rng.choice([0, 0, 1, 2]))
   if n_subgraphs is None:
@@ -457,7 +457,7 @@ def gen_model(rng, n_subgraphs=None, max_ops=8, op_weights=None):
     gbs.append(gen_subgraph(mb, i, key, rng.randint(1, max_ops), op_weights))
   # constants shared across subgraphs: retarget a const of subgraph j>0 to a
   # same-shaped buffer of subgraph 0
-  if n_subgraphs > 1 and rng.random() < 0.5:
+  if n_subgraphs > 1 and (force_share or rng.random() < 0.5):
     g0 = gbs[0]
     for gb in gbs[1:]:
       for c in gb.consts:
